@@ -26,38 +26,66 @@ def sum_of_lengths(c):
     return t[0] == "bin" and t[1] == "AddWithOverflow" and is_len(t[2]) and is_len(t[3])
 
 
-def upper_bound(t, depth=0):
+def range_item_bound(src, depth=0, env=None):
+    """upper bound of the elements of an iterator chain over a Range (rev / iter / into_iter peeled)"""
+    while isinstance(src, tuple) and src and (src[0] == "iter" or (src[0] == "call" and src[1].rsplit("::", 1)[-1] in ("rev", "into_iter", "iter") and src[2])):
+        src = src[1] if src[0] == "iter" else src[2][0]
+    if isinstance(src, tuple) and src and src[0] == "agg" and (src[2] or "").endswith("Range"):
+        e = upper_bound(dict(src[4]).get("end"), depth + 1, env)
+        return None if e is None else max(e - 1, 0)
+    return None
+
+
+def closure_param_bounds(P, f):
+    """for a closure handed to an iterator consumer over a Range (`(0..k).rev().fold(init, |acc, i| ..)`, `.map(|i| ..)`):
+    {('arg', last parameter): bound of the range's elements}, evaluated at the call site in the parent function"""
+    if f.kind != "Closure":
+        return {}
+    parent = P.fns.get(f.j.get("parent_fn"))
+    if parent is None or not parent.has_body:
+        return {}
+    v = FnView.get(P, parent)
+    out = {}
+    for (bb, t, ci) in parent.calls():
+        if not ci or ci.get("name") not in ("fold", "map", "for_each", "try_fold", "try_for_each", "all", "any", "filter", "rfold"):
+            continue
+        a = v.call_args(bb)
+        if a and any(x[0] == "closure" and x[1] == f.key for x in a[1:]):
+            b = range_item_bound(a[0])
+            if b is not None:
+                out[("arg", f.arg_count)] = b
+    return out
+
+
+def upper_bound(t, depth=0, env=None):
     """a static upper bound of an unsigned integer term, or None"""
     if depth > 8 or not isinstance(t, tuple):
         return None
+    if env and t in env:
+        return env[t]
     if t[0] == "const" and isinstance(t[2], int):
         return t[2]
     if t[0] == "const" and isinstance(t[2], str) and t[2].endswith("::BITS"):
         return 128
     if t[0] == "cast":
-        return upper_bound(t[3], depth + 1)
+        return upper_bound(t[3], depth + 1, env)
     if t[0] == "bin" and t[1] in ("Sub", "Div", "Rem", "Shr", "BitAnd"):
-        return upper_bound(t[2], depth + 1)          # unsigned: subtracting / dividing / masking only decreases
+        return upper_bound(t[2], depth + 1, env)          # unsigned: subtracting / dividing / masking only decreases
     if t[0] == "bin" and t[1] in ("Mul", "Add"):
-        a, b = upper_bound(t[2], depth + 1), upper_bound(t[3], depth + 1)
+        a, b = upper_bound(t[2], depth + 1, env), upper_bound(t[3], depth + 1, env)
         return None if a is None or b is None else (a * b if t[1] == "Mul" else a + b)
     if (t[0] == "call" and t[1].rsplit("::", 1)[-1] == "len") and t[2] and is_call(t[2][0], name="to_be_bytes"):
         return 16
     if t[0] == "some" and is_call(t[1], name="next"):
         # element of a range: below its end
-        src = t[1][2][0]
-        while src[0] == "iter" or (src[0] == "call" and src[1].rsplit("::", 1)[-1] in ("rev", "into_iter")):
-            src = src[1] if src[0] == "iter" else src[2][0]
-        if src[0] == "agg" and (src[2] or "").endswith("Range"):
-            e = upper_bound(dict(src[4]).get("end"), depth + 1)
-            return None if e is None else max(e - 1, 0)
+        return range_item_bound(t[1][2][0], depth, env)
     return None
 
 
-def shift_in_range(c):
+def shift_in_range(c, env=None):
     """MIR asserts `amount < BITS` for a shift: discharge when a static upper bound of the amount is below the width"""
     if c[0] == "bin" and c[1] == "Lt" and c[3][0] == "const" and isinstance(c[3][2], int):
-        ub = upper_bound(c[2])
+        ub = upper_bound(c[2], 0, env)
         return ub is not None and ub < c[3][2]
     return False
 
@@ -267,7 +295,7 @@ def run(ctx):
                 auto += 1
                 ctx.ok("PANIC-auto", f.key, "%s@sum-of-in-memory-lengths" % k)
                 continue
-            if k in ("assert:overflow:Shl", "assert:overflow:Shr") and shift_in_range(c):
+            if k in ("assert:overflow:Shl", "assert:overflow:Shr") and shift_in_range(c, closure_param_bounds(P, f)):
                 auto += 1
                 ctx.ok("PANIC-auto", f.key, "%s@shift-amount-below-width" % k, {"cond": fmt(c)[:120]})
                 continue
